@@ -396,7 +396,10 @@ pub fn c03_visit_depth(ctx: &StateCtx, acc: &mut Acc, nest: u32) {
             // take back): state hidden from the dump (lazily cached answers) must not leak into the parent's answers
             let checked0: Vec<String> = moves(&mut g, true).iter().map(|m| m.uci_notation()).collect();
             let unchecked0: Vec<String> = list.iter().map(|m| m.uci_notation()).collect();
-            for m in list.iter() {
+            // thorough tier: the spaces are ~60 times larger and nesting depth 3 already dominates; the child-query
+            // excursions run on every 16th state there (all of them in the quick tier)
+            let do_excursions = nest <= 2 || ctx.index % 16 == 0;
+            for m in list.iter().filter(|_| do_excursions) {
                 for child_query in [false, true] {
                     g.push(*m);
                     let _ = moves(&mut g, child_query);
